@@ -125,9 +125,9 @@ static vj::Value run_layout(const vj::Value& c)
       {
         Vector def = mat.create_vector_r(), cor = mat.create_vector_r();
         DVec garbage(NN); for(Index i = 0; i < NN; ++i) garbage[i] = 1e30 + double(i);
-        Lay_::set(def, tests[k], NV, m); Lay_::set(cor, garbage, NV, m);
+        Lay_::set(def, tests[k], n, m); Lay_::set(cor, garbage, n, m);
         Solver::Status st = vanka.apply(cor, def);
-        DVec x = Lay_::get(cor, NV, m), d2 = Lay_::get(def, NV, m);
+        DVec x = Lay_::get(cor, n, m), d2 = Lay_::get(def, n, m);
         outs.push_back(x);
         if(st != Solver::Status::success) return fail(s, op, "status", "apply returned a status other than success");
         if(!vx::same(d2, tests[k])) return fail(s, op, "input_modified", "input vector modified: " + vx::show(d2));
@@ -136,8 +136,18 @@ static vj::Value run_layout(const vj::Value& c)
         if(!any)
         {
           std::string e; for(std::size_t a = 0; a < exp[k].size(); ++a) e += (a ? " or " : "") + vx::show(vx::dyvec(exp[k][a]));
-          bool nan = false; for(double v : x) nan = nan || (v != v);
-          vj::Value r = fail(s, op, nan ? "result_nan" : "result",
+          // classification: NaN exactly where the specification says "dof in no block, no correction" (additive variants)?
+          bool nan = false, nan_unc = false;
+          for(double v : x) nan = nan || (v != v);
+          if(nan)
+          {
+            const std::vector<long long> cntv = c["count"].ints();
+            nan_unc = true;
+            for(Index i = 0; i < NN; ++i) if(cntv[i] == 0 && !(x[i] != x[i])) { const DVec e0 = vx::dyvec(exp[k][0]); if(e0[i] == 0.0 && x[i] != 0.0) nan_unc = false; }
+            bool anyunc = false; for(Index i = 0; i < NN; ++i) anyunc = anyunc || (cntv[i] == 0 && (x[i] != x[i]));
+            nan_unc = nan_unc && anyunc;
+          }
+          vj::Value r = fail(s, op, nan_unc ? "result_nan_uncovered" : nan ? "result_nan" : "result",
                              "apply #" + std::to_string(napply) + " rhs " + vx::show(tests[k]) + ": got " + vx::show(x) + " expected " + e);
           r["napply"] = (long long)napply;
           return r;
